@@ -1,0 +1,481 @@
+// Copyright 2020-2025 Buf Technologies, Inc.
+//
+// Licensed under the Apache License, Version 2.0 (the "License");
+// you may not use this file except in compliance with the License.
+// You may obtain a copy of the License at
+//
+//      http://www.apache.org/licenses/LICENSE-2.0
+//
+// Unless required by applicable law or agreed to in writing, software
+// distributed under the License is distributed on an "AS IS" BASIS,
+// WITHOUT WARRANTIES OR CONDITIONS OF ANY KIND, either express or implied.
+// See the License for the specific language governing permissions and
+// limitations under the License.
+
+//go:build verif
+
+package bufcheckserverhandle
+
+// C05 contracts for the lint rule handlers (gocv verifier, see /verif/DESIGN.md). Comment-only.
+//
+// Accessor purity of the bufprotosource descriptor interfaces (assumption).
+//@ trusted pure interface bufprotosource.Enum
+//@ trusted pure interface bufprotosource.EnumValue
+//@ trusted pure interface bufprotosource.Message
+//@ trusted pure interface bufprotosource.Field
+//@ trusted pure interface bufprotosource.Oneof
+//@ trusted pure interface bufprotosource.Service
+//@ trusted pure interface bufprotosource.Method
+//@ trusted pure interface bufprotosource.FileImport
+//@ trusted pure interface bufprotosource.NamedDescriptor
+//@ trusted pure interface bufcheckserverutil.Request
+//@ trusted pure interface protoreflect.OneofDescriptor
+//@ trusted pure interface protodescriptor.FileDescriptor
+//
+// Case conversion: trusted pure functions (rune loops; bounded validation only, see DESIGN C05).
+//@ trusted pure func stringutil.ToPascalCase(s) (r)
+//@ trusted pure func stringutil.ToLowerSnakeCase(s, options) (r)
+//@ trusted pure func stringutil.ToUpperSnakeCase(s, options) (r)
+//
+// Rule options: deterministic functions of the request's options (bufcheckopt, another package; assumption).
+//@ trusted pure func bufcheckopt.GetEnumZeroValueSuffix(options) (r, err)
+//@ trusted pure func bufcheckopt.GetServiceSuffix(options) (r, err)
+//@ trusted pure func bufcheckopt.GetRPCAllowSameRequestResponse(options) (r, err)
+//@ trusted pure func bufcheckopt.GetRPCAllowGoogleProtobufEmptyRequests(options) (r, err)
+//@ trusted pure func bufcheckopt.GetRPCAllowGoogleProtobufEmptyResponses(options) (r, err)
+//@ trusted pure func bufcheckopt.GetCommentExcludes(options) (r, err)
+//
+// The field/enum-value variants pass no option (digits do not start a new word).
+//@ pure func fieldToLowerSnakeCase(s) (r)
+//@   property C05
+//@   ensures same-as-stringutil: r == stringutil.ToLowerSnakeCase(s)
+//@ pure func fieldToUpperSnakeCase(s) (r)
+//@   property C05
+//@   ensures same-as-stringutil: r == stringutil.ToUpperSnakeCase(s)
+//
+//@ func handleLintEnumPascalCase(responseWriter, request, enum) (err)
+//@   property C05
+//@   modifies ghost.annCount, ghost.annLocs, ghost.annFiles
+//@   ensures no-error: err == nil
+//@   ensures violation-reported: enum.Name() != stringutil.ToPascalCase(enum.Name()) ==> ghost.annCount == old(ghost.annCount) + 1 && ghost.annLocs == add(old(ghost.annLocs), enum.NameLocation()) && ghost.annFiles == add(old(ghost.annFiles), enum.File().Path())
+//@   ensures clean-silent: enum.Name() == stringutil.ToPascalCase(enum.Name()) ==> ghost.annCount == old(ghost.annCount) && ghost.annLocs == old(ghost.annLocs) && ghost.annFiles == old(ghost.annFiles)
+//
+//@ func handleLintEnumNoAllowAlias(responseWriter, request, enum) (err)
+//@   property C05
+//@   modifies ghost.annCount, ghost.annLocs, ghost.annFiles
+//@   ensures no-error: err == nil
+//@   ensures violation-reported: enum.AllowAlias() ==> ghost.annCount == old(ghost.annCount) + 1 && ghost.annLocs == add(old(ghost.annLocs), enum.AllowAliasLocation()) && ghost.annFiles == add(old(ghost.annFiles), enum.File().Path())
+//@   ensures clean-silent: !enum.AllowAlias() ==> ghost.annCount == old(ghost.annCount) && ghost.annLocs == old(ghost.annLocs) && ghost.annFiles == old(ghost.annFiles)
+//
+// MESSAGE_PASCAL_CASE: a (non-synthetic) message whose name is not PascalCase is reported once at its NAME.
+//@ func handleLintMessagePascalCase(responseWriter, request, message) (err)
+//@   property C05
+//@   modifies ghost.annCount, ghost.annLocs, ghost.annFiles
+//@   ensures no-error: err == nil
+//@   ensures violation-reported: (!message.IsMapEntry() && message.Name() != stringutil.ToPascalCase(message.Name())) ==> ghost.annCount == old(ghost.annCount) + 1 && ghost.annLocs == add(old(ghost.annLocs), message.NameLocation()) && ghost.annFiles == add(old(ghost.annFiles), message.File().Path())
+//@   ensures clean-silent: !(!message.IsMapEntry() && message.Name() != stringutil.ToPascalCase(message.Name())) ==> ghost.annCount == old(ghost.annCount) && ghost.annLocs == old(ghost.annLocs) && ghost.annFiles == old(ghost.annFiles)
+//
+// SERVICE_PASCAL_CASE
+//@ func handleLintServicePascalCase(responseWriter, request, service) (err)
+//@   property C05
+//@   modifies ghost.annCount, ghost.annLocs, ghost.annFiles
+//@   ensures no-error: err == nil
+//@   ensures violation-reported: (service.Name() != stringutil.ToPascalCase(service.Name())) ==> ghost.annCount == old(ghost.annCount) + 1 && ghost.annLocs == add(old(ghost.annLocs), service.NameLocation()) && ghost.annFiles == add(old(ghost.annFiles), service.File().Path())
+//@   ensures clean-silent: !(service.Name() != stringutil.ToPascalCase(service.Name())) ==> ghost.annCount == old(ghost.annCount) && ghost.annLocs == old(ghost.annLocs) && ghost.annFiles == old(ghost.annFiles)
+//
+// RPC_PASCAL_CASE
+//@ func handleLintRPCPascalCase(responseWriter, request, method) (err)
+//@   property C05
+//@   modifies ghost.annCount, ghost.annLocs, ghost.annFiles
+//@   ensures no-error: err == nil
+//@   ensures violation-reported: (method.Name() != stringutil.ToPascalCase(method.Name())) ==> ghost.annCount == old(ghost.annCount) + 1 && ghost.annLocs == add(old(ghost.annLocs), method.NameLocation()) && ghost.annFiles == add(old(ghost.annFiles), method.File().Path())
+//@   ensures clean-silent: !(method.Name() != stringutil.ToPascalCase(method.Name())) ==> ghost.annCount == old(ghost.annCount) && ghost.annLocs == old(ghost.annLocs) && ghost.annFiles == old(ghost.annFiles)
+//
+// FIELD_LOWER_SNAKE_CASE (synthetic map-entry fields are not user-written and are skipped)
+//@ func handleLintFieldLowerSnakeCase(responseWriter, request, field) (err)
+//@   property C05
+//@   modifies ghost.annCount, ghost.annLocs, ghost.annFiles
+//@   ensures no-error: err == nil
+//@   ensures violation-reported: (!(field.ParentMessage() != nil && field.ParentMessage().IsMapEntry()) && field.Name() != stringutil.ToLowerSnakeCase(field.Name())) ==> ghost.annCount == old(ghost.annCount) + 1 && ghost.annLocs == add(old(ghost.annLocs), field.NameLocation()) && ghost.annFiles == add(old(ghost.annFiles), field.File().Path())
+//@   ensures clean-silent: !(!(field.ParentMessage() != nil && field.ParentMessage().IsMapEntry()) && field.Name() != stringutil.ToLowerSnakeCase(field.Name())) ==> ghost.annCount == old(ghost.annCount) && ghost.annLocs == old(ghost.annLocs) && ghost.annFiles == old(ghost.annFiles)
+//
+// ONEOF_LOWER_SNAKE_CASE: the synthetic oneof of a proto3-optional field is never reported.
+//@ func handleLintOneofLowerSnakeCase(responseWriter, request, oneof) (err)
+//@   property C05
+//@   modifies ghost.annCount, ghost.annLocs, ghost.annFiles
+//@   ensures no-error: err == nil
+//@   ensures violation-reported: (oneof.Name() != stringutil.ToLowerSnakeCase(oneof.Name()) && !(len(oneof.Fields()) == 1 && oneof.Fields()[0].Proto3Optional())) ==> ghost.annCount == old(ghost.annCount) + 1 && ghost.annLocs == add(old(ghost.annLocs), oneof.NameLocation()) && ghost.annFiles == add(old(ghost.annFiles), oneof.File().Path())
+//@   ensures clean-silent: !(oneof.Name() != stringutil.ToLowerSnakeCase(oneof.Name()) && !(len(oneof.Fields()) == 1 && oneof.Fields()[0].Proto3Optional())) ==> ghost.annCount == old(ghost.annCount) && ghost.annLocs == old(ghost.annLocs) && ghost.annFiles == old(ghost.annFiles)
+//
+// ENUM_VALUE_UPPER_SNAKE_CASE
+//@ func handleLintEnumValueUpperSnakeCase(responseWriter, request, enumValue) (err)
+//@   property C05
+//@   modifies ghost.annCount, ghost.annLocs, ghost.annFiles
+//@   ensures no-error: err == nil
+//@   ensures violation-reported: (enumValue.Name() != stringutil.ToUpperSnakeCase(enumValue.Name())) ==> ghost.annCount == old(ghost.annCount) + 1 && ghost.annLocs == add(old(ghost.annLocs), enumValue.NameLocation()) && ghost.annFiles == add(old(ghost.annFiles), enumValue.File().Path())
+//@   ensures clean-silent: !(enumValue.Name() != stringutil.ToUpperSnakeCase(enumValue.Name())) ==> ghost.annCount == old(ghost.annCount) && ghost.annLocs == old(ghost.annLocs) && ghost.annFiles == old(ghost.annFiles)
+//
+// ENUM_VALUE_PREFIX: every value name starts with UPPER_SNAKE(enum name) + "_".
+//@ func handleLintEnumValuePrefix(responseWriter, request, enumValue) (err)
+//@   property C05
+//@   modifies ghost.annCount, ghost.annLocs, ghost.annFiles
+//@   ensures no-error: err == nil
+//@   ensures violation-reported: (!hasPrefix(enumValue.Name(), stringutil.ToUpperSnakeCase(enumValue.Enum().Name()) + "_")) ==> ghost.annCount == old(ghost.annCount) + 1 && ghost.annLocs == add(old(ghost.annLocs), enumValue.NameLocation()) && ghost.annFiles == add(old(ghost.annFiles), enumValue.File().Path())
+//@   ensures clean-silent: !(!hasPrefix(enumValue.Name(), stringutil.ToUpperSnakeCase(enumValue.Enum().Name()) + "_")) ==> ghost.annCount == old(ghost.annCount) && ghost.annLocs == old(ghost.annLocs) && ghost.annFiles == old(ghost.annFiles)
+//
+// ENUM_FIRST_VALUE_ZERO: reported at the NUMBER of the first value.
+//@ func handleLintEnumFirstValueZero(responseWriter, request, enum) (err)
+//@   property C05
+//@   modifies ghost.annCount, ghost.annLocs, ghost.annFiles
+//@   ensures no-error: err == nil
+//@   ensures violation-reported: (len(enum.Values()) > 0 && enum.Values()[0].Number() != 0) ==> ghost.annCount == old(ghost.annCount) + 1 && ghost.annLocs == add(old(ghost.annLocs), enum.Values()[0].NumberLocation()) && ghost.annFiles == add(old(ghost.annFiles), enum.Values()[0].File().Path())
+//@   ensures clean-silent: !(len(enum.Values()) > 0 && enum.Values()[0].Number() != 0) ==> ghost.annCount == old(ghost.annCount) && ghost.annLocs == old(ghost.annLocs) && ghost.annFiles == old(ghost.annFiles)
+//
+// RPC_NO_CLIENT_STREAMING
+//@ func handleLintRPCNoClientStreaming(responseWriter, request, method) (err)
+//@   property C05
+//@   modifies ghost.annCount, ghost.annLocs, ghost.annFiles
+//@   ensures no-error: err == nil
+//@   ensures violation-reported: (method.ClientStreaming()) ==> ghost.annCount == old(ghost.annCount) + 1 && ghost.annLocs == add(old(ghost.annLocs), method.Location()) && ghost.annFiles == add(old(ghost.annFiles), method.File().Path())
+//@   ensures clean-silent: !(method.ClientStreaming()) ==> ghost.annCount == old(ghost.annCount) && ghost.annLocs == old(ghost.annLocs) && ghost.annFiles == old(ghost.annFiles)
+//
+// RPC_NO_SERVER_STREAMING
+//@ func handleLintRPCNoServerStreaming(responseWriter, request, method) (err)
+//@   property C05
+//@   modifies ghost.annCount, ghost.annLocs, ghost.annFiles
+//@   ensures no-error: err == nil
+//@   ensures violation-reported: (method.ServerStreaming()) ==> ghost.annCount == old(ghost.annCount) + 1 && ghost.annLocs == add(old(ghost.annLocs), method.Location()) && ghost.annFiles == add(old(ghost.annFiles), method.File().Path())
+//@   ensures clean-silent: !(method.ServerStreaming()) ==> ghost.annCount == old(ghost.annCount) && ghost.annLocs == old(ghost.annLocs) && ghost.annFiles == old(ghost.annFiles)
+//
+// IMPORT_NO_PUBLIC
+//@ func handleLintImportNoPublic(responseWriter, request, fileImport) (err)
+//@   property C05
+//@   modifies ghost.annCount, ghost.annLocs, ghost.annFiles
+//@   ensures no-error: err == nil
+//@   ensures violation-reported: (fileImport.IsPublic()) ==> ghost.annCount == old(ghost.annCount) + 1 && ghost.annLocs == add(old(ghost.annLocs), fileImport.Location()) && ghost.annFiles == add(old(ghost.annFiles), fileImport.File().Path())
+//@   ensures clean-silent: !(fileImport.IsPublic()) ==> ghost.annCount == old(ghost.annCount) && ghost.annLocs == old(ghost.annLocs) && ghost.annFiles == old(ghost.annFiles)
+//
+// IMPORT_USED
+//@ func handleLintImportUsed(responseWriter, request, fileImport) (err)
+//@   property C05
+//@   modifies ghost.annCount, ghost.annLocs, ghost.annFiles
+//@   ensures no-error: err == nil
+//@   ensures violation-reported: (fileImport.IsUnused()) ==> ghost.annCount == old(ghost.annCount) + 1 && ghost.annLocs == add(old(ghost.annLocs), fileImport.Location()) && ghost.annFiles == add(old(ghost.annFiles), fileImport.File().Path())
+//@   ensures clean-silent: !(fileImport.IsUnused()) ==> ghost.annCount == old(ghost.annCount) && ghost.annLocs == old(ghost.annLocs) && ghost.annFiles == old(ghost.annFiles)
+//
+// ENUM_ZERO_VALUE_SUFFIX: only the zero value is concerned; its name must end in the configured suffix.
+//@ func handleLintEnumZeroValueSuffix(responseWriter, request, enumValue) (err)
+//@   property C05
+//@   modifies ghost.annCount, ghost.annLocs, ghost.annFiles
+//@   ensures option-error-propagated: err == second(bufcheckopt.GetEnumZeroValueSuffix(request.Options()))
+//@   ensures violation-reported: err == nil && enumValue.Number() == 0 && !hasSuffix(enumValue.Name(), first(bufcheckopt.GetEnumZeroValueSuffix(request.Options()))) ==> ghost.annCount == old(ghost.annCount) + 1 && ghost.annLocs == add(old(ghost.annLocs), enumValue.NameLocation()) && ghost.annFiles == add(old(ghost.annFiles), enumValue.File().Path())
+//@   ensures clean-silent: !(err == nil && enumValue.Number() == 0 && !hasSuffix(enumValue.Name(), first(bufcheckopt.GetEnumZeroValueSuffix(request.Options())))) ==> ghost.annCount == old(ghost.annCount) && ghost.annLocs == old(ghost.annLocs) && ghost.annFiles == old(ghost.annFiles)
+//
+// SERVICE_SUFFIX: the service name must end in the configured suffix.
+//@ func handleLintServiceSuffix(responseWriter, request, service) (err)
+//@   property C05
+//@   modifies ghost.annCount, ghost.annLocs, ghost.annFiles
+//@   ensures option-error-propagated: err == second(bufcheckopt.GetServiceSuffix(request.Options()))
+//@   ensures violation-reported: err == nil && !hasSuffix(service.Name(), first(bufcheckopt.GetServiceSuffix(request.Options()))) ==> ghost.annCount == old(ghost.annCount) + 1 && ghost.annLocs == add(old(ghost.annLocs), service.NameLocation()) && ghost.annFiles == add(old(ghost.annFiles), service.File().Path())
+//@   ensures clean-silent: !(err == nil && !hasSuffix(service.Name(), first(bufcheckopt.GetServiceSuffix(request.Options())))) ==> ghost.annCount == old(ghost.annCount) && ghost.annLocs == old(ghost.annLocs) && ghost.annFiles == old(ghost.annFiles)
+//
+// RPC_REQUEST_STANDARD_NAME: the unqualified request type name is <Method>Request or <Service><Method>Request
+// (PascalCase of the RPC / service names); google.protobuf.Empty is accepted only when the option allows it.
+// Reported once at the REQUEST TYPE reference of the RPC.
+//@ func handleLintRPCRequestStandardName(responseWriter, request, method) (err)
+//@   property C05
+//@   modifies ghost.annCount, ghost.annLocs, ghost.annFiles
+//@   use c_split-last
+//@   reveal c_shortName
+//@   canary ensures ghost.annCount == old(ghost.annCount)
+//@   ensures option-error-propagated: second(bufcheckopt.GetRPCAllowGoogleProtobufEmptyRequests(request.Options())) != nil ==> err == second(bufcheckopt.GetRPCAllowGoogleProtobufEmptyRequests(request.Options()))
+//@   ensures no-service-is-error: second(bufcheckopt.GetRPCAllowGoogleProtobufEmptyRequests(request.Options())) == nil ==> ((err != nil) <==> method.Service() == nil)
+//@   ensures violation-reported: second(bufcheckopt.GetRPCAllowGoogleProtobufEmptyRequests(request.Options())) == nil && method.Service() != nil && !(first(bufcheckopt.GetRPCAllowGoogleProtobufEmptyRequests(request.Options())) && method.InputTypeName() == "google.protobuf.Empty") && c_shortName(method.InputTypeName()) != stringutil.ToPascalCase(method.Name()) + "Request" && c_shortName(method.InputTypeName()) != stringutil.ToPascalCase(method.Service().Name()) + stringutil.ToPascalCase(method.Name()) + "Request" ==> ghost.annCount == old(ghost.annCount) + 1 && ghost.annLocs == add(old(ghost.annLocs), method.InputTypeLocation()) && ghost.annFiles == add(old(ghost.annFiles), method.File().Path())
+//@   ensures clean-silent: !(second(bufcheckopt.GetRPCAllowGoogleProtobufEmptyRequests(request.Options())) == nil && method.Service() != nil && !(first(bufcheckopt.GetRPCAllowGoogleProtobufEmptyRequests(request.Options())) && method.InputTypeName() == "google.protobuf.Empty") && c_shortName(method.InputTypeName()) != stringutil.ToPascalCase(method.Name()) + "Request" && c_shortName(method.InputTypeName()) != stringutil.ToPascalCase(method.Service().Name()) + stringutil.ToPascalCase(method.Name()) + "Request") ==> ghost.annCount == old(ghost.annCount) && ghost.annLocs == old(ghost.annLocs) && ghost.annFiles == old(ghost.annFiles)
+//
+// RPC_RESPONSE_STANDARD_NAME: the unqualified response type name is <Method>Response or <Service><Method>Response
+// (PascalCase of the RPC / service names); google.protobuf.Empty is accepted only when the option allows it.
+// Reported once at the RESPONSE TYPE reference of the RPC.
+//@ func handleLintRPCResponseStandardName(responseWriter, request, method) (err)
+//@   property C05
+//@   modifies ghost.annCount, ghost.annLocs, ghost.annFiles
+//@   use c_split-last
+//@   reveal c_shortName
+//@   canary ensures ghost.annCount == old(ghost.annCount)
+//@   ensures option-error-propagated: second(bufcheckopt.GetRPCAllowGoogleProtobufEmptyResponses(request.Options())) != nil ==> err == second(bufcheckopt.GetRPCAllowGoogleProtobufEmptyResponses(request.Options()))
+//@   ensures no-service-is-error: second(bufcheckopt.GetRPCAllowGoogleProtobufEmptyResponses(request.Options())) == nil ==> ((err != nil) <==> method.Service() == nil)
+//@   ensures violation-reported: second(bufcheckopt.GetRPCAllowGoogleProtobufEmptyResponses(request.Options())) == nil && method.Service() != nil && !(first(bufcheckopt.GetRPCAllowGoogleProtobufEmptyResponses(request.Options())) && method.OutputTypeName() == "google.protobuf.Empty") && c_shortName(method.OutputTypeName()) != stringutil.ToPascalCase(method.Name()) + "Response" && c_shortName(method.OutputTypeName()) != stringutil.ToPascalCase(method.Service().Name()) + stringutil.ToPascalCase(method.Name()) + "Response" ==> ghost.annCount == old(ghost.annCount) + 1 && ghost.annLocs == add(old(ghost.annLocs), method.OutputTypeLocation()) && ghost.annFiles == add(old(ghost.annFiles), method.File().Path())
+//@   ensures clean-silent: !(second(bufcheckopt.GetRPCAllowGoogleProtobufEmptyResponses(request.Options())) == nil && method.Service() != nil && !(first(bufcheckopt.GetRPCAllowGoogleProtobufEmptyResponses(request.Options())) && method.OutputTypeName() == "google.protobuf.Empty") && c_shortName(method.OutputTypeName()) != stringutil.ToPascalCase(method.Name()) + "Response" && c_shortName(method.OutputTypeName()) != stringutil.ToPascalCase(method.Service().Name()) + stringutil.ToPascalCase(method.Name()) + "Response") ==> ghost.annCount == old(ghost.annCount) && ghost.annLocs == old(ghost.annLocs) && ghost.annFiles == old(ghost.annFiles)
+//
+// COMMENT_*: "returns true if comment has at least one line that isn't empty and doesn't start with one of the
+// comment excludes" (doc comment of validLeadingComment; spec predicate c_docComment in /verif/specs/C05.spec).
+//@ pure func validLeadingComment(commentExcludes, comment) (r)
+//@   property C05
+//@   reveal c_docComment, c_docLine
+//@   ensures documented-iff-some-line-documents: r <==> c_docComment(commentExcludes, comment)
+//@   canary ensures !r
+//@   ensures single-exclude: len(commentExcludes) == 1 ==> (r <==> c_docComment(commentExcludes, comment))
+//@   loop 0 invariant len(commentExcludes) == 1 ==> forall j int :: 0 <= j && j < $i0 ==> !c_docLine(commentExcludes, strings.TrimSpace(strings.Split(comment, "\n")[j]))
+//@   loop 1 invariant $i0 < len(strings.Split(comment, "\n")) && line == strings.TrimSpace(strings.Split(comment, "\n")[$i0])
+//@   loop 1 invariant len(commentExcludes) == 1 ==> forall j int :: 0 <= j && j < $i0 ==> !c_docLine(commentExcludes, strings.TrimSpace(strings.Split(comment, "\n")[j]))
+//@   loop 1 invariant forall e int :: 0 <= e && e < $i1 ==> line == "" || hasPrefix(line, commentExcludes[e])
+//
+// The shared comment helper: an element that has a source location and whose leading comment is not a
+// documentation comment is reported exactly once, at the element's location; nothing else.
+//@ func handleLintCommentNamedDescriptor(responseWriter, request, namedDescriptor, typeName) (err)
+//@   property C05
+//@   modifies ghost.annCount, ghost.annLocs, ghost.annFiles
+//@   ensures option-error-propagated: namedDescriptor.Location() != nil ==> err == second(bufcheckopt.GetCommentExcludes(request.Options()))
+//@   ensures no-location-no-error: namedDescriptor.Location() == nil ==> err == nil
+//@   ensures violation-reported: namedDescriptor.Location() != nil && err == nil && !c_docComment(first(bufcheckopt.GetCommentExcludes(request.Options())), namedDescriptor.Location().LeadingComments()) ==> ghost.annCount == old(ghost.annCount) + 1 && ghost.annLocs == add(old(ghost.annLocs), namedDescriptor.Location()) && ghost.annFiles == add(old(ghost.annFiles), namedDescriptor.File().Path())
+//@   ensures clean-silent: !(namedDescriptor.Location() != nil && err == nil && !c_docComment(first(bufcheckopt.GetCommentExcludes(request.Options())), namedDescriptor.Location().LeadingComments())) ==> ghost.annCount == old(ghost.annCount) && ghost.annLocs == old(ghost.annLocs) && ghost.annFiles == old(ghost.annFiles)
+//
+// COMMENT_ENUM
+//@ func handleLintCommentEnum(responseWriter, request, value) (err)
+//@   property C05
+//@   modifies ghost.annCount, ghost.annLocs, ghost.annFiles
+//@   ensures option-error-propagated: value.Location() != nil ==> err == second(bufcheckopt.GetCommentExcludes(request.Options()))
+//@   ensures violation-reported: value.Location() != nil && err == nil && !c_docComment(first(bufcheckopt.GetCommentExcludes(request.Options())), value.Location().LeadingComments()) ==> ghost.annCount == old(ghost.annCount) + 1 && ghost.annLocs == add(old(ghost.annLocs), value.Location()) && ghost.annFiles == add(old(ghost.annFiles), value.File().Path())
+//@   ensures clean-silent: !(value.Location() != nil && err == nil && !c_docComment(first(bufcheckopt.GetCommentExcludes(request.Options())), value.Location().LeadingComments())) ==> ghost.annCount == old(ghost.annCount) && ghost.annLocs == old(ghost.annLocs) && ghost.annFiles == old(ghost.annFiles)
+//
+// COMMENT_ENUM_VALUE
+//@ func handleLintCommentEnumValue(responseWriter, request, value) (err)
+//@   property C05
+//@   modifies ghost.annCount, ghost.annLocs, ghost.annFiles
+//@   ensures option-error-propagated: value.Location() != nil ==> err == second(bufcheckopt.GetCommentExcludes(request.Options()))
+//@   ensures violation-reported: value.Location() != nil && err == nil && !c_docComment(first(bufcheckopt.GetCommentExcludes(request.Options())), value.Location().LeadingComments()) ==> ghost.annCount == old(ghost.annCount) + 1 && ghost.annLocs == add(old(ghost.annLocs), value.Location()) && ghost.annFiles == add(old(ghost.annFiles), value.File().Path())
+//@   ensures clean-silent: !(value.Location() != nil && err == nil && !c_docComment(first(bufcheckopt.GetCommentExcludes(request.Options())), value.Location().LeadingComments())) ==> ghost.annCount == old(ghost.annCount) && ghost.annLocs == old(ghost.annLocs) && ghost.annFiles == old(ghost.annFiles)
+//
+// COMMENT_FIELD: synthetic map-entry fields and group fields carry no comments and are skipped.
+//@ func handleLintCommentField(responseWriter, request, value) (err)
+//@   property C05
+//@   modifies ghost.annCount, ghost.annLocs, ghost.annFiles
+//@   ensures option-error-propagated: !((value.ParentMessage() != nil && value.ParentMessage().IsMapEntry()) || value.Type() == descriptorpb.FieldDescriptorProto_TYPE_GROUP) && value.Location() != nil ==> err == second(bufcheckopt.GetCommentExcludes(request.Options()))
+//@   ensures violation-reported: !((value.ParentMessage() != nil && value.ParentMessage().IsMapEntry()) || value.Type() == descriptorpb.FieldDescriptorProto_TYPE_GROUP) && value.Location() != nil && err == nil && !c_docComment(first(bufcheckopt.GetCommentExcludes(request.Options())), value.Location().LeadingComments()) ==> ghost.annCount == old(ghost.annCount) + 1 && ghost.annLocs == add(old(ghost.annLocs), value.Location()) && ghost.annFiles == add(old(ghost.annFiles), value.File().Path())
+//@   ensures clean-silent: !(!((value.ParentMessage() != nil && value.ParentMessage().IsMapEntry()) || value.Type() == descriptorpb.FieldDescriptorProto_TYPE_GROUP) && value.Location() != nil && err == nil && !c_docComment(first(bufcheckopt.GetCommentExcludes(request.Options())), value.Location().LeadingComments())) ==> ghost.annCount == old(ghost.annCount) && ghost.annLocs == old(ghost.annLocs) && ghost.annFiles == old(ghost.annFiles)
+//
+// COMMENT_MESSAGE: synthetic map-entry messages are skipped.
+//@ func handleLintCommentMessage(responseWriter, request, value) (err)
+//@   property C05
+//@   modifies ghost.annCount, ghost.annLocs, ghost.annFiles
+//@   ensures option-error-propagated: !(value.IsMapEntry()) && value.Location() != nil ==> err == second(bufcheckopt.GetCommentExcludes(request.Options()))
+//@   ensures violation-reported: !(value.IsMapEntry()) && value.Location() != nil && err == nil && !c_docComment(first(bufcheckopt.GetCommentExcludes(request.Options())), value.Location().LeadingComments()) ==> ghost.annCount == old(ghost.annCount) + 1 && ghost.annLocs == add(old(ghost.annLocs), value.Location()) && ghost.annFiles == add(old(ghost.annFiles), value.File().Path())
+//@   ensures clean-silent: !(!(value.IsMapEntry()) && value.Location() != nil && err == nil && !c_docComment(first(bufcheckopt.GetCommentExcludes(request.Options())), value.Location().LeadingComments())) ==> ghost.annCount == old(ghost.annCount) && ghost.annLocs == old(ghost.annLocs) && ghost.annFiles == old(ghost.annFiles)
+//
+// COMMENT_ONEOF: the synthetic oneof of a proto3-optional field is skipped.
+//@ func handleLintCommentOneof(responseWriter, request, value) (err)
+//@   property C05
+//@   modifies ghost.annCount, ghost.annLocs, ghost.annFiles
+//@   ensures option-error-propagated: !(second(value.AsDescriptor()) == nil && first(value.AsDescriptor()).IsSynthetic()) && value.Location() != nil ==> err == second(bufcheckopt.GetCommentExcludes(request.Options()))
+//@   ensures violation-reported: !(second(value.AsDescriptor()) == nil && first(value.AsDescriptor()).IsSynthetic()) && value.Location() != nil && err == nil && !c_docComment(first(bufcheckopt.GetCommentExcludes(request.Options())), value.Location().LeadingComments()) ==> ghost.annCount == old(ghost.annCount) + 1 && ghost.annLocs == add(old(ghost.annLocs), value.Location()) && ghost.annFiles == add(old(ghost.annFiles), value.File().Path())
+//@   ensures clean-silent: !(!(second(value.AsDescriptor()) == nil && first(value.AsDescriptor()).IsSynthetic()) && value.Location() != nil && err == nil && !c_docComment(first(bufcheckopt.GetCommentExcludes(request.Options())), value.Location().LeadingComments())) ==> ghost.annCount == old(ghost.annCount) && ghost.annLocs == old(ghost.annLocs) && ghost.annFiles == old(ghost.annFiles)
+//
+// COMMENT_RPC
+//@ func handleLintCommentRPC(responseWriter, request, value) (err)
+//@   property C05
+//@   modifies ghost.annCount, ghost.annLocs, ghost.annFiles
+//@   ensures option-error-propagated: value.Location() != nil ==> err == second(bufcheckopt.GetCommentExcludes(request.Options()))
+//@   ensures violation-reported: value.Location() != nil && err == nil && !c_docComment(first(bufcheckopt.GetCommentExcludes(request.Options())), value.Location().LeadingComments()) ==> ghost.annCount == old(ghost.annCount) + 1 && ghost.annLocs == add(old(ghost.annLocs), value.Location()) && ghost.annFiles == add(old(ghost.annFiles), value.File().Path())
+//@   ensures clean-silent: !(value.Location() != nil && err == nil && !c_docComment(first(bufcheckopt.GetCommentExcludes(request.Options())), value.Location().LeadingComments())) ==> ghost.annCount == old(ghost.annCount) && ghost.annLocs == old(ghost.annLocs) && ghost.annFiles == old(ghost.annFiles)
+//
+// COMMENT_SERVICE
+//@ func handleLintCommentService(responseWriter, request, value) (err)
+//@   property C05
+//@   modifies ghost.annCount, ghost.annLocs, ghost.annFiles
+//@   ensures option-error-propagated: value.Location() != nil ==> err == second(bufcheckopt.GetCommentExcludes(request.Options()))
+//@   ensures violation-reported: value.Location() != nil && err == nil && !c_docComment(first(bufcheckopt.GetCommentExcludes(request.Options())), value.Location().LeadingComments()) ==> ghost.annCount == old(ghost.annCount) + 1 && ghost.annLocs == add(old(ghost.annLocs), value.Location()) && ghost.annFiles == add(old(ghost.annFiles), value.File().Path())
+//@   ensures clean-silent: !(value.Location() != nil && err == nil && !c_docComment(first(bufcheckopt.GetCommentExcludes(request.Options())), value.Location().LeadingComments())) ==> ghost.annCount == old(ghost.annCount) && ghost.annLocs == old(ghost.annLocs) && ghost.annFiles == old(ghost.annFiles)
+//
+// PACKAGE_DEFINED: a file without a package is reported once, as a file-level annotation (no location) for that file.
+//@ func handleLintPackageDefined(responseWriter, request, file) (err)
+//@   property C05
+//@   modifies ghost.annCount, ghost.annLocs, ghost.annFiles
+//@   ensures no-error: err == nil
+//@   ensures violation-reported: file.Package() == "" ==> ghost.annCount == old(ghost.annCount) + 1 && ghost.annLocs == add(old(ghost.annLocs), nil) && ghost.annFiles == add(old(ghost.annFiles), file.Path())
+//@   ensures clean-silent: file.Package() != "" ==> ghost.annCount == old(ghost.annCount) && ghost.annLocs == old(ghost.annLocs) && ghost.annFiles == old(ghost.annFiles)
+//
+// FILE_LOWER_SNAKE_CASE: the base name without its extension must be lower_snake_case; reported once as a
+// file-level annotation (no location) for that file.
+//@ func handleLintFileLowerSnakeCase(responseWriter, request, file) (err)
+//@   property C05
+//@   modifies ghost.annCount, ghost.annLocs, ghost.annFiles
+//@   ensures no-error: err == nil
+//@   ensures violation-reported: strings.TrimSuffix(normalpath.Base(file.Path()), normalpath.Ext(file.Path())) != stringutil.ToLowerSnakeCase(strings.TrimSuffix(normalpath.Base(file.Path()), normalpath.Ext(file.Path()))) ==> ghost.annCount == old(ghost.annCount) + 1 && ghost.annLocs == add(old(ghost.annLocs), nil) && ghost.annFiles == add(old(ghost.annFiles), file.Path())
+//@   ensures clean-silent: strings.TrimSuffix(normalpath.Base(file.Path()), normalpath.Ext(file.Path())) == stringutil.ToLowerSnakeCase(strings.TrimSuffix(normalpath.Base(file.Path()), normalpath.Ext(file.Path()))) ==> ghost.annCount == old(ghost.annCount) && ghost.annLocs == old(ghost.annLocs) && ghost.annFiles == old(ghost.annFiles)
+//
+// PACKAGE_DIRECTORY_MATCH: a file with package a.b.c must be in directory a/b/c (relative to the root);
+// reported once at the PACKAGE declaration. Files without a package are not concerned.
+//@ func handleLintPackageDirectoryMatch(responseWriter, request, file) (err)
+//@   property C05
+//@   modifies ghost.annCount, ghost.annLocs, ghost.annFiles
+//@   ensures no-error: err == nil
+//@   ensures violation-reported: file.Package() != "" && normalpath.Dir(file.Path()) != replaceAll(file.Package(), ".", "/") ==> ghost.annCount == old(ghost.annCount) + 1 && ghost.annLocs == add(old(ghost.annLocs), file.PackageLocation()) && ghost.annFiles == add(old(ghost.annFiles), file.Path())
+//@   ensures clean-silent: !(file.Package() != "" && normalpath.Dir(file.Path()) != replaceAll(file.Package(), ".", "/")) ==> ghost.annCount == old(ghost.annCount) && ghost.annLocs == old(ghost.annLocs) && ghost.annFiles == old(ghost.annFiles)
+//
+// PACKAGE_VERSION_SUFFIX: a file whose (non-empty) package has no well-formed version suffix is reported once at
+// the PACKAGE declaration. Files without a package are not concerned.
+// (pkgVersioned: the trusted, uninterpreted result of protoversion.NewPackageVersionForPackage, /verif/specs/repo_trusted.spec)
+//@ func handleLintPackageVersionSuffix(responseWriter, request, file) (err)
+//@   property C05
+//@   modifies ghost.annCount, ghost.annLocs, ghost.annFiles, ghost.versionConsulted
+//@   ensures no-error: err == nil
+//@   ensures violation-reported: file.Package() != "" && !pkgVersioned(file.Package()) ==> ghost.annCount == old(ghost.annCount) + 1 && ghost.annLocs == add(old(ghost.annLocs), file.PackageLocation()) && ghost.annFiles == add(old(ghost.annFiles), file.Path())
+//@   ensures clean-silent: !(file.Package() != "" && !pkgVersioned(file.Package())) ==> ghost.annCount == old(ghost.annCount) && ghost.annLocs == old(ghost.annLocs) && ghost.annFiles == old(ghost.annFiles)
+//
+// PACKAGE_SAME_<OPTION>: all files of one package must agree on the option's value, "not set" being a value of its
+// own. If two files differ, EVERY file of the package is reported, once, at its option location (file name as
+// fallback); if all agree, nothing is reported. Nothing else is annotated.
+//@ func handleLintPackageSameOptionValue(responseWriter, pkg, pkgFiles, getFileOptionValue, getFileOptionLocation, name) (err)
+//@   property C05
+//@   callback pure getFileOptionValue
+//@   callback pure getFileOptionLocation
+//@   canary ensures ghost.annCount == old(ghost.annCount)
+//@   modifies ghost.annCount, ghost.annLocs, ghost.annFiles
+//@   ensures no-error: err == nil
+//@   ensures differing-all-files-reported: (exists a int, b int :: 0 <= a && a < len(pkgFiles) && 0 <= b && b < len(pkgFiles) && getFileOptionValue(pkgFiles[a]) != getFileOptionValue(pkgFiles[b])) ==> ghost.annCount == old(ghost.annCount) + len(pkgFiles) && (forall i int :: 0 <= i && i < len(pkgFiles) ==> getFileOptionLocation(pkgFiles[i]) in ghost.annLocs && pkgFiles[i].Path() in ghost.annFiles)
+//@   ensures only-option-locations: forall l ref :: l in ghost.annLocs ==> l in old(ghost.annLocs) || (exists i int :: 0 <= i && i < len(pkgFiles) && l == getFileOptionLocation(pkgFiles[i]))
+//@   ensures only-package-files: forall p string :: p in ghost.annFiles ==> p in old(ghost.annFiles) || (exists i int :: 0 <= i && i < len(pkgFiles) && p == pkgFiles[i].Path())
+//@   ensures agreeing-silent: !(exists a int, b int :: 0 <= a && a < len(pkgFiles) && 0 <= b && b < len(pkgFiles) && getFileOptionValue(pkgFiles[a]) != getFileOptionValue(pkgFiles[b])) ==> ghost.annCount == old(ghost.annCount) && ghost.annLocs == old(ghost.annLocs) && ghost.annFiles == old(ghost.annFiles)
+//@   loop 0 invariant optionValueMap != nil && len(optionValueMap) >= 0 && ($i == 0 ==> len(optionValueMap) == 0)
+//@   loop 0 invariant forall k string :: k in optionValueMap <==> (exists j int :: 0 <= j && j < $i && getFileOptionValue(pkgFiles[j]) == k)
+//@   loop 0 invariant $i > 0 ==> len(optionValueMap) >= 1 && (len(optionValueMap) == 1 <==> (forall a int :: 0 <= a && a < $i ==> getFileOptionValue(pkgFiles[a]) == getFileOptionValue(pkgFiles[0])))
+//@   loop 1 invariant ghost.annCount == old(ghost.annCount) + $i
+//@   loop 1 invariant forall i int :: 0 <= i && i < $i ==> getFileOptionLocation(pkgFiles[i]) in ghost.annLocs && pkgFiles[i].Path() in ghost.annFiles
+//@   loop 1 invariant forall l ref :: l in ghost.annLocs ==> l in old(ghost.annLocs) || (exists i int :: 0 <= i && i < $i && l == getFileOptionLocation(pkgFiles[i]))
+//@   loop 1 invariant forall p string :: p in ghost.annFiles ==> p in old(ghost.annFiles) || (exists i int :: 0 <= i && i < $i && p == pkgFiles[i].Path())
+//
+// PACKAGE_SAME_CSHARP_NAMESPACE: files of one package that differ in the option (unset = empty value) are all reported at the option.
+//@ func handleLintPackageSameCsharpNamespace(responseWriter, request, pkg, pkgFiles) (err)
+//@   property C05
+//@   modifies ghost.annCount, ghost.annLocs, ghost.annFiles
+//@   ensures no-error: err == nil
+//@   ensures differing-all-files-reported: (exists a int, b int :: 0 <= a && a < len(pkgFiles) && 0 <= b && b < len(pkgFiles) && pkgFiles[a].CsharpNamespace() != pkgFiles[b].CsharpNamespace()) ==> ghost.annCount == old(ghost.annCount) + len(pkgFiles) && (forall i int :: 0 <= i && i < len(pkgFiles) ==> pkgFiles[i].CsharpNamespaceLocation() in ghost.annLocs && pkgFiles[i].Path() in ghost.annFiles)
+//@   ensures only-option-locations: forall l ref :: l in ghost.annLocs ==> l in old(ghost.annLocs) || (exists i int :: 0 <= i && i < len(pkgFiles) && l == pkgFiles[i].CsharpNamespaceLocation())
+//@   ensures only-package-files: forall p string :: p in ghost.annFiles ==> p in old(ghost.annFiles) || (exists i int :: 0 <= i && i < len(pkgFiles) && p == pkgFiles[i].Path())
+//@   ensures agreeing-silent: !(exists a int, b int :: 0 <= a && a < len(pkgFiles) && 0 <= b && b < len(pkgFiles) && pkgFiles[a].CsharpNamespace() != pkgFiles[b].CsharpNamespace()) ==> ghost.annCount == old(ghost.annCount) && ghost.annLocs == old(ghost.annLocs) && ghost.annFiles == old(ghost.annFiles)
+//
+// PACKAGE_SAME_GO_PACKAGE: files of one package that differ in the option (unset = empty value) are all reported at the option.
+//@ func handleLintPackageSameGoPackage(responseWriter, request, pkg, pkgFiles) (err)
+//@   property C05
+//@   modifies ghost.annCount, ghost.annLocs, ghost.annFiles
+//@   ensures no-error: err == nil
+//@   ensures differing-all-files-reported: (exists a int, b int :: 0 <= a && a < len(pkgFiles) && 0 <= b && b < len(pkgFiles) && pkgFiles[a].GoPackage() != pkgFiles[b].GoPackage()) ==> ghost.annCount == old(ghost.annCount) + len(pkgFiles) && (forall i int :: 0 <= i && i < len(pkgFiles) ==> pkgFiles[i].GoPackageLocation() in ghost.annLocs && pkgFiles[i].Path() in ghost.annFiles)
+//@   ensures only-option-locations: forall l ref :: l in ghost.annLocs ==> l in old(ghost.annLocs) || (exists i int :: 0 <= i && i < len(pkgFiles) && l == pkgFiles[i].GoPackageLocation())
+//@   ensures only-package-files: forall p string :: p in ghost.annFiles ==> p in old(ghost.annFiles) || (exists i int :: 0 <= i && i < len(pkgFiles) && p == pkgFiles[i].Path())
+//@   ensures agreeing-silent: !(exists a int, b int :: 0 <= a && a < len(pkgFiles) && 0 <= b && b < len(pkgFiles) && pkgFiles[a].GoPackage() != pkgFiles[b].GoPackage()) ==> ghost.annCount == old(ghost.annCount) && ghost.annLocs == old(ghost.annLocs) && ghost.annFiles == old(ghost.annFiles)
+//
+// PACKAGE_SAME_JAVA_PACKAGE: files of one package that differ in the option (unset = empty value) are all reported at the option.
+//@ func handleLintPackageSameJavaPackage(responseWriter, request, pkg, pkgFiles) (err)
+//@   property C05
+//@   modifies ghost.annCount, ghost.annLocs, ghost.annFiles
+//@   ensures no-error: err == nil
+//@   ensures differing-all-files-reported: (exists a int, b int :: 0 <= a && a < len(pkgFiles) && 0 <= b && b < len(pkgFiles) && pkgFiles[a].JavaPackage() != pkgFiles[b].JavaPackage()) ==> ghost.annCount == old(ghost.annCount) + len(pkgFiles) && (forall i int :: 0 <= i && i < len(pkgFiles) ==> pkgFiles[i].JavaPackageLocation() in ghost.annLocs && pkgFiles[i].Path() in ghost.annFiles)
+//@   ensures only-option-locations: forall l ref :: l in ghost.annLocs ==> l in old(ghost.annLocs) || (exists i int :: 0 <= i && i < len(pkgFiles) && l == pkgFiles[i].JavaPackageLocation())
+//@   ensures only-package-files: forall p string :: p in ghost.annFiles ==> p in old(ghost.annFiles) || (exists i int :: 0 <= i && i < len(pkgFiles) && p == pkgFiles[i].Path())
+//@   ensures agreeing-silent: !(exists a int, b int :: 0 <= a && a < len(pkgFiles) && 0 <= b && b < len(pkgFiles) && pkgFiles[a].JavaPackage() != pkgFiles[b].JavaPackage()) ==> ghost.annCount == old(ghost.annCount) && ghost.annLocs == old(ghost.annLocs) && ghost.annFiles == old(ghost.annFiles)
+//
+// PACKAGE_SAME_PHP_NAMESPACE: files of one package that differ in the option (unset = empty value) are all reported at the option.
+//@ func handleLintPackageSamePhpNamespace(responseWriter, request, pkg, pkgFiles) (err)
+//@   property C05
+//@   modifies ghost.annCount, ghost.annLocs, ghost.annFiles
+//@   ensures no-error: err == nil
+//@   ensures differing-all-files-reported: (exists a int, b int :: 0 <= a && a < len(pkgFiles) && 0 <= b && b < len(pkgFiles) && pkgFiles[a].PhpNamespace() != pkgFiles[b].PhpNamespace()) ==> ghost.annCount == old(ghost.annCount) + len(pkgFiles) && (forall i int :: 0 <= i && i < len(pkgFiles) ==> pkgFiles[i].PhpNamespaceLocation() in ghost.annLocs && pkgFiles[i].Path() in ghost.annFiles)
+//@   ensures only-option-locations: forall l ref :: l in ghost.annLocs ==> l in old(ghost.annLocs) || (exists i int :: 0 <= i && i < len(pkgFiles) && l == pkgFiles[i].PhpNamespaceLocation())
+//@   ensures only-package-files: forall p string :: p in ghost.annFiles ==> p in old(ghost.annFiles) || (exists i int :: 0 <= i && i < len(pkgFiles) && p == pkgFiles[i].Path())
+//@   ensures agreeing-silent: !(exists a int, b int :: 0 <= a && a < len(pkgFiles) && 0 <= b && b < len(pkgFiles) && pkgFiles[a].PhpNamespace() != pkgFiles[b].PhpNamespace()) ==> ghost.annCount == old(ghost.annCount) && ghost.annLocs == old(ghost.annLocs) && ghost.annFiles == old(ghost.annFiles)
+//
+// PACKAGE_SAME_RUBY_PACKAGE: files of one package that differ in the option (unset = empty value) are all reported at the option.
+//@ func handleLintPackageSameRubyPackage(responseWriter, request, pkg, pkgFiles) (err)
+//@   property C05
+//@   modifies ghost.annCount, ghost.annLocs, ghost.annFiles
+//@   ensures no-error: err == nil
+//@   ensures differing-all-files-reported: (exists a int, b int :: 0 <= a && a < len(pkgFiles) && 0 <= b && b < len(pkgFiles) && pkgFiles[a].RubyPackage() != pkgFiles[b].RubyPackage()) ==> ghost.annCount == old(ghost.annCount) + len(pkgFiles) && (forall i int :: 0 <= i && i < len(pkgFiles) ==> pkgFiles[i].RubyPackageLocation() in ghost.annLocs && pkgFiles[i].Path() in ghost.annFiles)
+//@   ensures only-option-locations: forall l ref :: l in ghost.annLocs ==> l in old(ghost.annLocs) || (exists i int :: 0 <= i && i < len(pkgFiles) && l == pkgFiles[i].RubyPackageLocation())
+//@   ensures only-package-files: forall p string :: p in ghost.annFiles ==> p in old(ghost.annFiles) || (exists i int :: 0 <= i && i < len(pkgFiles) && p == pkgFiles[i].Path())
+//@   ensures agreeing-silent: !(exists a int, b int :: 0 <= a && a < len(pkgFiles) && 0 <= b && b < len(pkgFiles) && pkgFiles[a].RubyPackage() != pkgFiles[b].RubyPackage()) ==> ghost.annCount == old(ghost.annCount) && ghost.annLocs == old(ghost.annLocs) && ghost.annFiles == old(ghost.annFiles)
+//
+// PACKAGE_SAME_SWIFT_PREFIX: files of one package that differ in the option (unset = empty value) are all reported at the option.
+//@ func handleLintPackageSameSwiftPrefix(responseWriter, request, pkg, pkgFiles) (err)
+//@   property C05
+//@   modifies ghost.annCount, ghost.annLocs, ghost.annFiles
+//@   ensures no-error: err == nil
+//@   ensures differing-all-files-reported: (exists a int, b int :: 0 <= a && a < len(pkgFiles) && 0 <= b && b < len(pkgFiles) && pkgFiles[a].SwiftPrefix() != pkgFiles[b].SwiftPrefix()) ==> ghost.annCount == old(ghost.annCount) + len(pkgFiles) && (forall i int :: 0 <= i && i < len(pkgFiles) ==> pkgFiles[i].SwiftPrefixLocation() in ghost.annLocs && pkgFiles[i].Path() in ghost.annFiles)
+//@   ensures only-option-locations: forall l ref :: l in ghost.annLocs ==> l in old(ghost.annLocs) || (exists i int :: 0 <= i && i < len(pkgFiles) && l == pkgFiles[i].SwiftPrefixLocation())
+//@   ensures only-package-files: forall p string :: p in ghost.annFiles ==> p in old(ghost.annFiles) || (exists i int :: 0 <= i && i < len(pkgFiles) && p == pkgFiles[i].Path())
+//@   ensures agreeing-silent: !(exists a int, b int :: 0 <= a && a < len(pkgFiles) && 0 <= b && b < len(pkgFiles) && pkgFiles[a].SwiftPrefix() != pkgFiles[b].SwiftPrefix()) ==> ghost.annCount == old(ghost.annCount) && ghost.annLocs == old(ghost.annLocs) && ghost.annFiles == old(ghost.annFiles)
+//
+// PACKAGE_SAME_JAVA_MULTIPLE_FILES: an explicitly written `false` differs from a file that does not set the option.
+//@ func handleLintPackageSameJavaMultipleFiles(responseWriter, request, pkg, pkgFiles) (err)
+//@   property C05
+//@   modifies ghost.annCount, ghost.annLocs, ghost.annFiles
+//@   closure 0 ensures three-valued: r == ite(file.FileDescriptor().GetOptions() != nil && file.FileDescriptor().GetOptions().JavaMultipleFiles != nil, ite(file.JavaMultipleFiles(), "true", "false"), "")
+//@   ensures no-error: err == nil
+//@   ensures differing-all-files-reported: (exists a int, b int :: 0 <= a && a < len(pkgFiles) && 0 <= b && b < len(pkgFiles) && ite(pkgFiles[a].FileDescriptor().GetOptions() != nil && pkgFiles[a].FileDescriptor().GetOptions().JavaMultipleFiles != nil, ite(pkgFiles[a].JavaMultipleFiles(), "true", "false"), "") != ite(pkgFiles[b].FileDescriptor().GetOptions() != nil && pkgFiles[b].FileDescriptor().GetOptions().JavaMultipleFiles != nil, ite(pkgFiles[b].JavaMultipleFiles(), "true", "false"), "")) ==> ghost.annCount == old(ghost.annCount) + len(pkgFiles) && (forall i int :: 0 <= i && i < len(pkgFiles) ==> pkgFiles[i].JavaMultipleFilesLocation() in ghost.annLocs && pkgFiles[i].Path() in ghost.annFiles)
+//@   ensures only-option-locations: forall l ref :: l in ghost.annLocs ==> l in old(ghost.annLocs) || (exists i int :: 0 <= i && i < len(pkgFiles) && l == pkgFiles[i].JavaMultipleFilesLocation())
+//@   ensures only-package-files: forall p string :: p in ghost.annFiles ==> p in old(ghost.annFiles) || (exists i int :: 0 <= i && i < len(pkgFiles) && p == pkgFiles[i].Path())
+//@   ensures agreeing-silent: !(exists a int, b int :: 0 <= a && a < len(pkgFiles) && 0 <= b && b < len(pkgFiles) && ite(pkgFiles[a].FileDescriptor().GetOptions() != nil && pkgFiles[a].FileDescriptor().GetOptions().JavaMultipleFiles != nil, ite(pkgFiles[a].JavaMultipleFiles(), "true", "false"), "") != ite(pkgFiles[b].FileDescriptor().GetOptions() != nil && pkgFiles[b].FileDescriptor().GetOptions().JavaMultipleFiles != nil, ite(pkgFiles[b].JavaMultipleFiles(), "true", "false"), "")) ==> ghost.annCount == old(ghost.annCount) && ghost.annLocs == old(ghost.annLocs) && ghost.annFiles == old(ghost.annFiles)
+//
+// PACKAGE_SAME_DIRECTORY: the files of one package must all be in one directory; otherwise EVERY file of the package is
+// reported once at its PACKAGE declaration. Nothing else is annotated.
+//@ func handleLintPackageSameDirectory(responseWriter, request, pkg, pkgFiles) (err)
+//@   property C05
+//@   modifies ghost.annCount, ghost.annLocs, ghost.annFiles
+//@   ensures no-error: err == nil
+//@   ensures differing-all-files-reported: (exists a int, b int :: 0 <= a && a < len(pkgFiles) && 0 <= b && b < len(pkgFiles) && normalpath.Dir(pkgFiles[a].Path()) != normalpath.Dir(pkgFiles[b].Path())) ==> ghost.annCount == old(ghost.annCount) + len(pkgFiles) && (forall i int :: 0 <= i && i < len(pkgFiles) ==> pkgFiles[i].PackageLocation() in ghost.annLocs && pkgFiles[i].Path() in ghost.annFiles)
+//@   ensures only-package-locations: forall l ref :: l in ghost.annLocs ==> l in old(ghost.annLocs) || (exists i int :: 0 <= i && i < len(pkgFiles) && l == pkgFiles[i].PackageLocation())
+//@   ensures only-these-files: forall p string :: p in ghost.annFiles ==> p in old(ghost.annFiles) || (exists i int :: 0 <= i && i < len(pkgFiles) && p == pkgFiles[i].Path())
+//@   ensures agreeing-silent: !(exists a int, b int :: 0 <= a && a < len(pkgFiles) && 0 <= b && b < len(pkgFiles) && normalpath.Dir(pkgFiles[a].Path()) != normalpath.Dir(pkgFiles[b].Path())) ==> ghost.annCount == old(ghost.annCount) && ghost.annLocs == old(ghost.annLocs) && ghost.annFiles == old(ghost.annFiles)
+//@   loop 0 invariant dirMap != nil && len(dirMap) >= 0 && ($i == 0 ==> len(dirMap) == 0)
+//@   loop 0 invariant forall k string :: k in dirMap <==> (exists j int :: 0 <= j && j < $i && normalpath.Dir(pkgFiles[j].Path()) == k)
+//@   loop 0 invariant $i > 0 ==> len(dirMap) >= 1 && (len(dirMap) == 1 <==> (forall a int :: 0 <= a && a < $i ==> normalpath.Dir(pkgFiles[a].Path()) == normalpath.Dir(pkgFiles[0].Path())))
+//@   loop 1 invariant ghost.annCount == old(ghost.annCount) + $i
+//@   loop 1 invariant forall i int :: 0 <= i && i < $i ==> pkgFiles[i].PackageLocation() in ghost.annLocs && pkgFiles[i].Path() in ghost.annFiles
+//@   loop 1 invariant forall l ref :: l in ghost.annLocs ==> l in old(ghost.annLocs) || (exists i int :: 0 <= i && i < $i && l == pkgFiles[i].PackageLocation())
+//@   loop 1 invariant forall p string :: p in ghost.annFiles ==> p in old(ghost.annFiles) || (exists i int :: 0 <= i && i < $i && p == pkgFiles[i].Path())
+//
+// DIRECTORY_SAME_PACKAGE: the files of one directory must all have the same package (no package counts as a package
+// of its own); otherwise EVERY file of the directory is reported once at its PACKAGE declaration.
+//@ func handleLintDirectorySamePackage(responseWriter, request, dirPath, dirFiles) (err)
+//@   property C05
+//@   modifies ghost.annCount, ghost.annLocs, ghost.annFiles
+//@   ensures no-error: err == nil
+//@   ensures differing-all-files-reported: (exists a int, b int :: 0 <= a && a < len(dirFiles) && 0 <= b && b < len(dirFiles) && dirFiles[a].Package() != dirFiles[b].Package()) ==> ghost.annCount == old(ghost.annCount) + len(dirFiles) && (forall i int :: 0 <= i && i < len(dirFiles) ==> dirFiles[i].PackageLocation() in ghost.annLocs && dirFiles[i].Path() in ghost.annFiles)
+//@   ensures only-package-locations: forall l ref :: l in ghost.annLocs ==> l in old(ghost.annLocs) || (exists i int :: 0 <= i && i < len(dirFiles) && l == dirFiles[i].PackageLocation())
+//@   ensures only-these-files: forall p string :: p in ghost.annFiles ==> p in old(ghost.annFiles) || (exists i int :: 0 <= i && i < len(dirFiles) && p == dirFiles[i].Path())
+//@   ensures agreeing-silent: !(exists a int, b int :: 0 <= a && a < len(dirFiles) && 0 <= b && b < len(dirFiles) && dirFiles[a].Package() != dirFiles[b].Package()) ==> ghost.annCount == old(ghost.annCount) && ghost.annLocs == old(ghost.annLocs) && ghost.annFiles == old(ghost.annFiles)
+//@   loop 0 invariant pkgMap != nil && len(pkgMap) >= 0 && ($i == 0 ==> len(pkgMap) == 0)
+//@   loop 0 invariant forall k string :: k in pkgMap <==> (exists j int :: 0 <= j && j < $i && dirFiles[j].Package() == k)
+//@   loop 0 invariant $i > 0 ==> len(pkgMap) >= 1 && (len(pkgMap) == 1 <==> (forall a int :: 0 <= a && a < $i ==> dirFiles[a].Package() == dirFiles[0].Package()))
+//@   loop 1 invariant ghost.annCount == old(ghost.annCount) + $i
+//@   loop 1 invariant forall i int :: 0 <= i && i < $i ==> dirFiles[i].PackageLocation() in ghost.annLocs && dirFiles[i].Path() in ghost.annFiles
+//@   loop 1 invariant forall l ref :: l in ghost.annLocs ==> l in old(ghost.annLocs) || (exists i int :: 0 <= i && i < $i && l == dirFiles[i].PackageLocation())
+//@   loop 1 invariant forall p string :: p in ghost.annFiles ==> p in old(ghost.annFiles) || (exists i int :: 0 <= i && i < $i && p == dirFiles[i].Path())
+//
+// RPC_REQUEST_RESPONSE_UNIQUE (handleLintRPCRequestResponseUnique) is NOT under contract: it writes through a map that
+// is stored inside another map (`fullNameToMethod[fullName] = method`, lint.go:1120), which the engine rejects
+// ("out-of-fragment: write through map variable fullNameToMethod that may alias another map ...").
+//
+// SYNTAX_SPECIFIED: a file without an explicit syntax is reported once as a file-level annotation.
+//@ func handleLintSyntaxSpecified(responseWriter, request, file) (err)
+//@   property C05
+//@   modifies ghost.annCount, ghost.annLocs, ghost.annFiles
+//@   ensures no-error: err == nil
+//@   ensures violation-reported: file.Syntax() == bufprotosource.SyntaxUnspecified ==> ghost.annCount == old(ghost.annCount) + 1 && ghost.annLocs == add(old(ghost.annLocs), nil) && ghost.annFiles == add(old(ghost.annFiles), file.Path())
+//@   ensures clean-silent: file.Syntax() != bufprotosource.SyntaxUnspecified ==> ghost.annCount == old(ghost.annCount) && ghost.annLocs == old(ghost.annLocs) && ghost.annFiles == old(ghost.annFiles)
+//
+// FIELD_NOT_REQUIRED: a field of `required` cardinality (label or editions feature) is reported at its NAME.
+//@ func handleLintFieldNotRequired(responseWriter, request, field) (err)
+//@   property C05
+//@   modifies ghost.annCount, ghost.annLocs, ghost.annFiles
+//@   ensures descriptor-error-propagated: err == second(field.AsDescriptor())
+//@   ensures violation-reported: err == nil && first(field.AsDescriptor()).Cardinality() == protoreflect.Required ==> ghost.annCount == old(ghost.annCount) + 1 && ghost.annLocs == add(old(ghost.annLocs), field.NameLocation()) && ghost.annFiles == add(old(ghost.annFiles), field.File().Path())
+//@   ensures clean-silent: !(err == nil && first(field.AsDescriptor()).Cardinality() == protoreflect.Required) ==> ghost.annCount == old(ghost.annCount) && ghost.annLocs == old(ghost.annLocs) && ghost.annFiles == old(ghost.annFiles)
+//
+// FIELD_NO_DESCRIPTOR: a field named "descriptor" in any capitalisation, with any number of leading/trailing
+// underscores, is reported at its NAME.
+//@ func handleLintFieldNoDescriptor(responseWriter, request, field) (err)
+//@   property C05
+//@   modifies ghost.annCount, ghost.annLocs, ghost.annFiles
+//@   ensures no-error: err == nil
+//@   ensures violation-reported: strings.ToLower(strings.Trim(field.Name(), "_")) == "descriptor" ==> ghost.annCount == old(ghost.annCount) + 1 && ghost.annLocs == add(old(ghost.annLocs), field.NameLocation()) && ghost.annFiles == add(old(ghost.annFiles), field.File().Path())
+//@   ensures clean-silent: strings.ToLower(strings.Trim(field.Name(), "_")) != "descriptor" ==> ghost.annCount == old(ghost.annCount) && ghost.annLocs == old(ghost.annLocs) && ghost.annFiles == old(ghost.annFiles)
